@@ -10,7 +10,7 @@ RULE = ("per case: rule set spot|futures, 1-3 instruments on one connection; per
         "serde types, the transformer is built by the real ExchangeTransformer::init, every message goes through the real Transformer::transform (and a "
         "stand-alone real *Sequencer::validate_sequence whose public fields are printed), delivered events through the real OrderBook::update, and the whole "
         "output list through the real with_termination_on_error(|e| e.is_terminal()). thorough additionally enumerates, for both rule sets, every sequence of "
-        "<= 3 messages over 20 (U,u,pu) triples around a snapshot at id 5 (16 840 cases). A case is distinct by the SHA-1 of its op lines and non-trivial "
+        "<= 3 messages over 18 (U,u,pu) triples around a snapshot at id 5 (12 348 cases). A case is distinct by the SHA-1 of its op lines and non-trivial "
         "when the implementation's observation block changes at least once")
 ASSUMPTIONS = [
     "the venue's contract (trusted, DESIGN C06): delivered depth messages are genuine - each states, for some id range (lo,hi], the amount at hi of every price "
@@ -71,7 +71,7 @@ LEVEL_TEXT = ("Proof. Lean theorems over the sequencing model composed with C05'
               "in venue size, ids, delivery length, number of instruments. The model is tied to the code on every run through the real serde types, init, transform, "
               "validate_sequence, OrderBook::update and with_termination_on_error; the oracle recomputes the book from the simulated venue, never from the messages.")
 LEVEL_NOTE = ("Trusted: Lean kernel; axioms propext/Classical.choice/Quot.sound only; the hand-written model (one definition per Rust function, parameterised by the rule "
-              "set; hash map as association list; map_while as list function), tied by sampled correspondence (400 quick / 20k random + 16.8k small-scope exhaustive "
+              "set; hash map as association list; map_while as list function), tied by sampled correspondence (400 quick / 20k random + 12.3k small-scope exhaustive "
               "id sequences thorough); harness, drivers, orchestrator. Hypotheses: messages and snapshot are genuine in the stated sense (the venue's contract; "
               "trichotomy and admitted_chain need none); futures no_false_alarm needs the delivery to contain the message covering the snapshot id (the published "
               "rule rejects a start at pu = s); distinct instrument keys per connection; that the terminal error leads to re-initialisation and a Reconnecting notice "
